@@ -51,6 +51,13 @@ type WorkerCfg struct {
 	Replay    string         `json:"replay"`  // replay file path (replay mode)
 	RepoHead  string         `json:"repo_head"`
 	NoShrink  bool           `json:"no_shrink"`
+	Indices   []int          `json:"indices"` // debugging: run exactly these run indices, print their hashes
+	Known     []KnownPattern `json:"known"`   // findings listed in /verif/known_findings.json: recorded, but the search goes on
+}
+
+type KnownPattern struct {
+	Class string `json:"class"`
+	Match string `json:"match"`
 }
 
 type ReplayFile struct {
@@ -59,6 +66,7 @@ type ReplayFile struct {
 	Config    string          `json:"config"`
 	Seed      uint64          `json:"seed"`
 	RunSeed   uint64          `json:"run_seed"`
+	RunIndex  int             `json:"run_index"`
 	Params    map[string]any  `json:"params,omitempty"`
 	Scenario  json.RawMessage `json:"scenario"`
 	Tape      []uint32        `json:"tape"`
@@ -84,6 +92,7 @@ type WorkerOut struct {
 	DetChecked   int                `json:"det_checked"`
 	DetMismatch  []string           `json:"det_mismatch"`
 	Violations   []string           `json:"violations"` // replay file paths
+	KnownHits    int                `json:"known_hits"`
 	ViolClasses  []string           `json:"violation_classes"`
 	Machinery    []string           `json:"machinery"`
 	Samples      []any              `json:"samples"`
@@ -145,6 +154,18 @@ func WorkerMain(t *testing.T, eng Engine) {
 	if cfg.Shards <= 0 {
 		cfg.Shards = 1
 	}
+	if len(cfg.Indices) > 0 {
+		for _, idx := range cfg.Indices {
+			rs := RunSeed(cfg.Seed, idx)
+			tp := NewTape(splitmix(rs))
+			r := eng.Exec(t, eng.Gen(rs, cfg.Params), tp, false)
+			fmt.Printf("RUNHASH %d seed=%d %s %s steps=%d\n", idx, rs, r.LogHash[:16], r.Outcome, r.Steps)
+			rp := ReplayTape(tp.Rec)
+			r2 := eng.Exec(t, eng.Gen(rs, cfg.Params), rp, false)
+			fmt.Printf("REPLAYHASH %d %s %s steps=%d taperec=%d replayed=%d\n", idx, r2.LogHash[:16], r2.Outcome, r2.Steps, len(tp.Rec), rp.pos)
+		}
+		return
+	}
 	sigs := map[string]struct{}{}
 	detDigest := sha256.New()
 	defer func() {
@@ -196,11 +217,21 @@ func WorkerMain(t *testing.T, eng Engine) {
 				out.Machinery = append(out.Machinery, fmt.Sprintf("run %d seed %d: %s", idx, rs, v.Msg))
 				break
 			}
-			rf := &ReplayFile{Property: cfg.Property, Engine: cfg.Engine, Config: cfg.Config, Seed: cfg.Seed, RunSeed: rs,
+			isKnown := false
+			for _, k := range cfg.Known {
+				if k.Class == v.Class && (k.Match == "" || strings.Contains(v.Msg, k.Match)) {
+					isKnown = true
+				}
+			}
+			if isKnown && out.KnownHits > 0 {
+				out.KnownHits++ // one replay file per shard is enough for a listed finding
+				continue
+			}
+			rf := &ReplayFile{Property: cfg.Property, Engine: cfg.Engine, Config: cfg.Config, Seed: cfg.Seed, RunSeed: rs, RunIndex: idx,
 				Params: cfg.Params, Scenario: sc, Tape: tape.Rec, Violation: v, LogSHA256: r.LogHash, RepoHead: cfg.RepoHead,
 				GoVersion: runtime.Version(), OrigTape: len(tape.Rec)}
 			if !cfg.NoShrink && !r.NoDetCheck {
-				minimise(t, eng, rf)
+				minimise(t, eng, rf, isKnown)
 			}
 			// final run with log kept, for the human-readable tail
 			fr := eng.Exec(t, rf.Scenario, ReplayTape(rf.Tape), true)
@@ -221,6 +252,10 @@ func WorkerMain(t *testing.T, eng Engine) {
 			}
 			out.Violations = append(out.Violations, path)
 			out.ViolClasses = append(out.ViolClasses, v.Class)
+			if isKnown {
+				out.KnownHits++
+				continue
+			}
 			break
 		}
 		if cfg.DetPct > 0 && !r.NoDetCheck && int(splitmix(rs^0xD37)%100) < cfg.DetPct {
@@ -242,56 +277,60 @@ func sameClass(r RunOut, class string) bool {
 	return ok && v.Class == class
 }
 
-// minimise shrinks scenario, then tape, accepting a candidate only if the same violation class recurs.
-func minimise(t *testing.T, eng Engine, rf *ReplayFile) {
+// minimise shrinks scenario, then tape, accepting a candidate only if the same violation class
+// recurs. (curSc, curTape) is at all times a pair that was verified to fail with that class.
+func minimise(t *testing.T, eng Engine, rf *ReplayFile, brief bool) {
 	class := rf.Violation.Class
-	budget := 3000
+	budget := 20000
+	deadline := time.Now().Add(60 * time.Second)
+	if brief {
+		deadline = time.Now().Add(5 * time.Second)
+	}
 	try := func(sc json.RawMessage, tape []uint32) (RunOut, bool) {
-		if budget <= 0 {
+		if budget <= 0 || time.Now().After(deadline) {
 			return RunOut{}, false
 		}
 		budget--
 		r := eng.Exec(t, sc, ReplayTape(tape), false)
 		return r, sameClass(r, class)
 	}
-	// the recorded tape must reproduce at all
-	if _, ok := try(rf.Scenario, rf.Tape); !ok {
-		return
+	curSc := rf.Scenario
+	curTape := append([]uint32{}, rf.Tape...)
+	last, ok := try(curSc, curTape)
+	if !ok {
+		return // the recorded tape must reproduce at all
 	}
-	// 1. scenario
-	for changed := true; changed && budget > 0; {
-		changed = false
-		for _, cand := range eng.Shrink(rf.Scenario) {
-			if _, ok := try(cand, rf.Tape); ok {
-				rf.Scenario = cand
-				changed = true
-				break
+	shrinkScenario := func() {
+		for changed := true; changed; {
+			changed = false
+			for _, cand := range eng.Shrink(curSc) {
+				if r, ok := try(cand, curTape); ok {
+					curSc, last = cand, r
+					changed = true
+					break
+				}
 			}
 		}
 	}
-	// 2. tape: truncate
-	tape := append([]uint32{}, rf.Tape...)
-	lo, hi := 0, len(tape)
-	for lo < hi && budget > 0 {
+	// 1. scenario
+	shrinkScenario()
+	// 2. tape: truncate (binary search for a short failing prefix)
+	lo, hi := 0, len(curTape)
+	for lo < hi {
 		mid := (lo + hi) / 2
-		if _, ok := try(rf.Scenario, tape[:mid]); ok {
+		if r, ok := try(curSc, curTape[:mid]); ok {
 			hi = mid
+			curTape, last = curTape[:mid], r
 		} else {
 			lo = mid + 1
 		}
 	}
-	if _, ok := try(rf.Scenario, tape[:hi]); ok {
-		tape = tape[:hi]
-	}
-	// 3. tape: zero chunks (ddmin-like)
-	for chunk := len(tape) / 2; chunk >= 1 && budget > 0; chunk /= 2 {
-		for i := 0; i < len(tape) && budget > 0; i += chunk {
-			end := i + chunk
-			if end > len(tape) {
-				end = len(tape)
-			}
+	// 3. tape: zero chunks (ddmin-like); zero = "keep running the same goroutine", "no fault"
+	for chunk := len(curTape) / 2; chunk >= 1; chunk /= 2 {
+		for i := 0; i < len(curTape); i += chunk {
+			end := min(i+chunk, len(curTape))
 			allZero := true
-			for _, v := range tape[i:end] {
+			for _, v := range curTape[i:end] {
 				if v != 0 {
 					allZero = false
 				}
@@ -299,36 +338,31 @@ func minimise(t *testing.T, eng Engine, rf *ReplayFile) {
 			if allZero {
 				continue
 			}
-			cand := append([]uint32{}, tape...)
+			cand := append([]uint32{}, curTape...)
 			for j := i; j < end; j++ {
 				cand[j] = 0
 			}
-			if _, ok := try(rf.Scenario, cand); ok {
-				tape = cand
+			if r, ok := try(curSc, cand); ok {
+				curTape, last = cand, r
 			}
 		}
 	}
 	// 4. scenario again with the simpler tape
-	for changed := true; changed && budget > 0; {
-		changed = false
-		for _, cand := range eng.Shrink(rf.Scenario) {
-			if _, ok := try(cand, tape); ok {
-				rf.Scenario = cand
-				changed = true
-				break
-			}
+	shrinkScenario()
+	// 5. drop trailing zeros (an exhausted tape yields 0)
+	trimmed := curTape
+	for len(trimmed) > 0 && trimmed[len(trimmed)-1] == 0 {
+		trimmed = trimmed[:len(trimmed)-1]
+	}
+	if len(trimmed) < len(curTape) {
+		if r, ok := try(curSc, trimmed); ok {
+			curTape, last = trimmed, r
 		}
 	}
-	// drop trailing zeros (an exhausted tape yields 0)
-	for len(tape) > 0 && tape[len(tape)-1] == 0 {
-		tape = tape[:len(tape)-1]
-	}
-	if r, ok := try(rf.Scenario, tape); ok {
-		rf.Tape = tape
-		rf.Minimised = true
-		rf.LogSHA256 = r.LogHash
-		rf.Violation, _ = firstViolation(r)
-	}
+	rf.Scenario, rf.Tape = curSc, curTape
+	rf.Minimised = true
+	rf.LogSHA256 = last.LogHash
+	rf.Violation, _ = firstViolation(last)
 }
 
 func replayFile(t *testing.T, eng Engine, path string) *ReplayResult {
